@@ -95,7 +95,7 @@ def gen_system(r, c, lines, stats, allow_scalar=True):
 
 def gen_export(tier, seed):
     r = rng(seed, "export")
-    ncases = 60 if tier == "quick" else 1200
+    ncases = 120 if tier == "quick" else 1200
     lines = []
     stats = {"cases": 0, "flows": 0, "stocks": 0, "scalar_flows": 0}
     for n in range(ncases):
@@ -109,7 +109,7 @@ def gen_export(tier, seed):
 
 def gen_plot(tier, seed):
     r = rng(seed, "plot")
-    ncases = 80 if tier == "quick" else 1500
+    ncases = 150 if tier == "quick" else 1500
     lines = []
     stats = {"cases": 0, "flows": 0, "stocks": 0, "scalar_flows": 0, "sankeys": 0, "splits": 0, "slices": 0, "plots": 0,
              "x_arrays": 0, "invalid_on_purpose": 0}
